@@ -343,6 +343,16 @@ def r175(ctx, R):
         deps = C.Deps(f)
         oki = li is not None and deps.reaches(li.iter, is_add_diff)
         okd = ld is not None and deps.reaches(ld.iter, is_del_filter)
+        if ld is not None and not okd and iter_name(ld):
+            # the same filter written as a loop (builder view)
+            bv = C.builder_view(f, iter_name(ld))
+            okd = bv is not None and len(bv['gens']) == 1 and mentions(
+                bv['gens'][0][1]) and len(bv['conds']) == 1 and isinstance(
+                    bv['conds'][0][0], ast.Compare) and (
+                        isinstance(bv['conds'][0][0].ops[0], ast.NotIn)
+                        and bv['conds'][0][1] or isinstance(
+                            bv['conds'][0][0].ops[0], ast.In)
+                        and not bv['conds'][0][1])
         okw = bool(oki and okd)
         why = 'insert over provided - existing: %s; delete over existing ' \
             'not provided: %s' % (bool(oki), bool(okd))
